@@ -535,6 +535,13 @@ class SWorld:
         if c < 30:
             p = self.puppets[a]
             assert p.at_decision and not p.cmdfut.done(), f"puppet {a} cannot act"
+            # object references must exist (shrunk or hand-written cases may dangle)
+            if c in (ENTER, EXIT, CANCEL, SETSHIELD, SETDEADLINE):
+                assert 1 <= b <= len(self.scopes), f"scope {b} does not exist"
+            if c in (GENTER, GEXIT, SPAWN, START):
+                assert 1 <= b <= len(self.groups), f"group {b} does not exist"
+            if c in (HCANCEL, HWAIT):
+                assert b in self.spawned_tids, f"handle {b} does not exist"
             p.outcome = None
             if c == FINISH:
                 p.cmdfut.set_result(("finish", b))
